@@ -220,6 +220,23 @@ func files(r *vk.Run) {
 	if granted == 0 {
 		r.Violation("file:vacuous", "no authorized_keys file granted anything: the check would be vacuous", nil)
 	}
+	// near-miss keys: every single-bit variant of a listed key must be refused (clean file)
+	{
+		s := newServer(false)
+		s.SetFSystem(fstest.MapFS{"home/alice/.hop/authorized_keys": &fstest.MapFile{Data: []byte(K[2].String() + "\n" + K[1].String() + "\n")}})
+		for bit := 0; bit < 256; bit++ {
+			r.Eval()
+			k := K[1]
+			k[bit/8] ^= 1 << (bit % 8)
+			if ok, _, _ := login(s, false, "alice", k); ok {
+				r.Violation(fmt.Sprintf("file:near-miss-key:byte%d", bit/8), fmt.Sprintf("a key differing from the listed key only in bit %d of byte %d was granted access", bit%8, bit/8), bit)
+			}
+		}
+		if ok, _, _ := login(s, false, "alice", K[1]); !ok {
+			r.Violation("file:liveness", "the listed key itself is refused on a clean file", nil)
+		}
+		r.Distinct("near-miss-keys")
+	}
 	// files that cannot be opened or read
 	good := []byte(K[1].String() + "\n" + K[2].String() + "\n")
 	type ff struct {
@@ -379,7 +396,7 @@ func main() {
 	for i := 1; i <= 3; i++ {
 		leafs[i] = leafFor(K[i])
 	}
-	r.SetRule("(1) authorized_keys contents: every sequence of <=3 (quick) / <=4 (thorough) lines over 12 line kinds (three valid keys incl. another user's, comment, empty, blanks, garbage, truncated base64, signing-key prefix, 31-byte key, trailing blanks, CR) with and without final newline, plus missing file, open errors, empty file, directory in its place and read errors after every 7th byte, x users {alice, bob, unknown} x client keys, on a real HopServer with an in-memory file system; oracle (one-directional): granted => the key is, line by line, a well-formed entry of that user's file. (2) explicit-state BFS over histories of AddAuthGrant(user,key,type) / Login(user,key) (2 users x 2 keys x 2 grant types) with authgrants enabled and disabled, login composed as checkAuthorization composes AuthorizeKey and AuthorizeKeyAuthGrant; reference = multiset of live grants; states deduplicated on (grant map, transport key set, reference). distinct_nontrivial = distinct file line sequences + BFS states.")
+	r.SetRule("(1) authorized_keys contents: every sequence of <=3 (quick) / <=4 (thorough) lines over 12 line kinds (three valid keys incl. another user's, comment, empty, blanks, garbage, truncated base64, signing-key prefix, 31-byte key, trailing blanks, CR) with and without final newline, plus missing file, open errors, empty file, directory in its place and read errors after every 7th byte, x users {alice, bob, unknown} x client keys (plus all 256 single-bit variants of a listed key), on a real HopServer with an in-memory file system; oracle (one-directional): granted => the key is, line by line, a well-formed entry of that user's file. (2) explicit-state BFS over histories of AddAuthGrant(user,key,type) / Login(user,key) (2 users x 2 keys x 2 grant types) with authgrants enabled and disabled, login composed as checkAuthorization composes AuthorizeKey and AuthorizeKeyAuthGrant; reference = multiset of live grants; states deduplicated on (grant map, transport key set, reference). distinct_nontrivial = distinct file line sequences + BFS states.")
 	files(r)
 	grantsBFS(r, true)
 	grantsBFS(r, false)
